@@ -21,18 +21,22 @@ package main
 
 import (
 	"archive/zip"
+	"bytes"
 	"context"
 	"fmt"
 	"os"
+	"os/signal"
 	"path/filepath"
 	"runtime"
 	"sort"
 	"strings"
 	"sync/atomic"
+	"syscall"
 	"time"
 
 	"github.com/itchio/headway/state"
 	"github.com/itchio/wharf/pwr"
+	"github.com/itchio/wharf/wire"
 
 	"verif/harness/lib"
 )
@@ -45,10 +49,11 @@ type c16Scn struct {
 	Shape    string `json:"shape"`    // build shape
 	N        int    `json:"n"`        // size parameter of the shape
 	Damage   string `json:"damage"`   // see c16Damage
-	Consumer string `json:"consumer"` // guardian|writer|writer-badpath|printer|printer-slow|healer|healer-noarchive|healer-corrupt
+	Consumer string `json:"consumer"` // guardian|writer|writer-badpath|writer-limit|printer|printer-slow|healer|healer-noarchive|healer-corrupt
 	Cancel   string `json:"cancel"`   // none|before|timer|progress|message|lastprogress
 	CancelK  int    `json:"cancelK"`  // microseconds for timer, call count for progress/message
 	Procs    int    `json:"procs"`    // GOMAXPROCS
+	FailN    int    `json:"failN"`    // writer-limit: the WoundsWriter's n-th write of a wound fails (file size limit)
 }
 
 func (s c16Scn) failFast() bool { return s.Consumer == "guardian" }
@@ -411,6 +416,8 @@ func c16Run(c *Ctx, b *c16Base, s c16Scn, target string, cur *c16Tree) (*c16Obs,
 		vctx.WoundsPath = pww
 	case "writer-badpath":
 		vctx.WoundsPath = filepath.Join(c.Tmp, "c16-no-such-dir", "w.pww")
+	case "writer-limit":
+		vctx.WoundsPath = pww
 	case "healer":
 		if _, err := os.Stat(b.zipOK); err != nil {
 			if err := c16Zip(b.zipOK, b.signed, -1); err != nil {
@@ -470,6 +477,15 @@ func c16Run(c *Ctx, b *c16Base, s c16Scn, target string, cur *c16Tree) (*c16Obs,
 	if s.Cancel == "timer" {
 		timer = time.AfterFunc(time.Duration(s.CancelK)*time.Microsecond, doCancel)
 	}
+	if s.Consumer == "writer-limit" {
+		// the .pww file may grow to exactly the bytes before the FailN-th wound: that write fails
+		// with EFBIG, i.e. the consumer returns an error after FailN-1 wounds were written
+		restore, err := c16LimitFileSize(c16WoundsPrefix(b, s))
+		if err != nil {
+			return nil, err
+		}
+		defer restore()
+	}
 	t0 := time.Now()
 	o.Class, o.Msg = lib.WithDeadline(c16Deadline, func() error {
 		err := vctx.Validate(ctx, target, b.sig)
@@ -502,6 +518,63 @@ func c16Run(c *Ctx, b *c16Base, s c16Scn, target string, cur *c16Tree) (*c16Obs,
 	}
 	os.Remove(pww)
 	return o, nil
+}
+
+// c16WoundsPrefix is the size of the wounds file up to and excluding the FailN-th wound, for the
+// two trees whose wound sequence is known in advance (every one-byte file flipped: FILE wound
+// [0,1) of file i, in order; every leaf directory missing: DIR wound i).
+func c16WoundsPrefix(b *c16Base, s c16Scn) int64 {
+	var buf bytes.Buffer
+	wc := wire.NewWriteContext(&buf)
+	wc.WriteMagic(pwr.WoundsMagic)
+	wc.WriteMessage(&pwr.WoundsHeader{})
+	wc.WriteMessage(b.sig.Container)
+	k := 0
+	emit := func(w *pwr.Wound) bool {
+		k++
+		if k >= s.FailN {
+			return false
+		}
+		wc.WriteMessage(w)
+		return true
+	}
+	switch s.Damage {
+	case "files-flip":
+		for i := range b.sig.Container.Files {
+			if !emit(&pwr.Wound{Kind: pwr.WoundKind_FILE, Index: int64(i), Start: 0, End: 1}) {
+				break
+			}
+		}
+	case "dirs-missing":
+		for i, d := range b.sig.Container.Dirs {
+			leaf := true
+			for _, x := range b.signed.Entries {
+				if strings.HasPrefix(x.Path, d.Path+"/") {
+					leaf = false
+					break
+				}
+			}
+			if leaf && !emit(&pwr.Wound{Kind: pwr.WoundKind_DIR, Index: int64(i)}) {
+				break
+			}
+		}
+	}
+	return int64(buf.Len())
+}
+
+// c16LimitFileSize sets the soft RLIMIT_FSIZE of the process (SIGXFSZ ignored, so writes past
+// the limit return EFBIG); the returned function restores it. Nothing else writes files while
+// Validate runs.
+func c16LimitFileSize(n int64) (func(), error) {
+	var old syscall.Rlimit
+	if err := syscall.Getrlimit(syscall.RLIMIT_FSIZE, &old); err != nil {
+		return nil, err
+	}
+	signal.Ignore(syscall.SIGXFSZ)
+	if err := syscall.Setrlimit(syscall.RLIMIT_FSIZE, &syscall.Rlimit{Cur: uint64(n), Max: old.Max}); err != nil {
+		return nil, err
+	}
+	return func() { syscall.Setrlimit(syscall.RLIMIT_FSIZE, &old) }, nil
 }
 
 // c16Oracle restates the property on the observation.
@@ -650,6 +723,27 @@ func c16Abstract(b *c16Base, s c16Scn) string {
 		}
 		files = append(files, kind(i))
 	}
+	if s.Consumer == "writer-limit" {
+		w := b.nFiles // number of wounds of the tree
+		if s.Damage == "dirs-missing" {
+			w = leafDirs
+		}
+		n := c16Scale(w) + 1 // never reached
+		if s.FailN <= w {
+			n = s.FailN
+			if n > 2 {
+				n = 2
+				if s.FailN > 1024 {
+					n = 3
+				}
+			}
+			if n > c16Scale(w) || s.FailN == w {
+				n = c16Scale(w)
+			}
+		}
+		return fmt.Sprintf("(mkscen 2 %s false %s (CKFailAtBad %d) %s %s)", lib.CoqList(preItems), lib.CoqList(files), n,
+			lib.CoqBool(s.Cancel == "before"), lib.CoqBool(s.Cancel != "none" && s.Cancel != "before"))
+	}
 	cons := map[string]string{"guardian": "CKGuardian", "writer": "CKQuiet", "printer": "CKQuiet", "printer-slow": "CKQuiet",
 		"writer-badpath": "CKFailOnBad", "healer": "(CKHealer None)", "healer-noarchive": "(CKHealer (Some 1))", "healer-corrupt": "(CKHealer (Some 1))"}[s.Consumer]
 	return fmt.Sprintf("(mkscen 2 %s %s %s %s %s %s)", lib.CoqList(preItems), lib.CoqBool(s.Damage == "root-missing" && !healer),
@@ -725,18 +819,24 @@ func runC16(c *Ctx) error {
 		name string
 		s    c16Scn
 	}{
-		{"guardian-cancelled-before/files-flip", c16Scn{"files", 40, "files-flip", "guardian", "before", 0, 4}},
-		{"guardian-cancelled-before/last-flip", c16Scn{"files", 1100, "last-flip", "guardian", "before", 0, 1}},
-		{"last-file-only", c16Scn{"files", 1100, "last-flip", "guardian", "none", 0, 16}},
-		{"guardian-cancelled-before/dirs-missing", c16Scn{"dirs", 1200, "dirs-missing", "guardian", "before", 0, 4}},
-		{"drain/1200-dir-wounds-guardian", c16Scn{"dirs", 1200, "dirs-missing", "guardian", "none", 0, 1}},
-		{"guardian-cancelled-mid/files-missing", c16Scn{"files", 1100, "files-missing", "guardian", "progress", 700, 4}},
-		{"drain/1100-wounds-guardian", c16Scn{"files", 1100, "files-flip", "guardian", "none", 0, 4}},
-		{"drain/1200-link-wounds-badpath", c16Scn{"links", 1200, "links-retarget", "writer-badpath", "none", 0, 4}},
-		{"rearm/worker-error-root-missing", c16Scn{"files", 40, "root-missing", "writer", "none", 0, 4}},
-		{"rearm/consumer-error-early", c16Scn{"files", 1100, "first-flip", "guardian", "none", 0, 1}},
-		{"early-return/parent-asfile", c16Scn{"mixed", 420, "parent-asfile", "writer", "none", 0, 4}},
-		{"zero-files/worker-error-after-loop", c16Scn{"empty", 0, "root-missing", "guardian", "none", 0, 4}},
+		{"guardian-cancelled-before/files-flip", c16Scn{"files", 40, "files-flip", "guardian", "before", 0, 4, 0}},
+		{"guardian-cancelled-before/last-flip", c16Scn{"files", 1100, "last-flip", "guardian", "before", 0, 1, 0}},
+		{"last-file-only", c16Scn{"files", 1100, "last-flip", "guardian", "none", 0, 16, 0}},
+		{"guardian-cancelled-before/dirs-missing", c16Scn{"dirs", 1200, "dirs-missing", "guardian", "before", 0, 4, 0}},
+		{"drain/1200-dir-wounds-guardian", c16Scn{"dirs", 1200, "dirs-missing", "guardian", "none", 0, 1, 0}},
+		{"guardian-cancelled-mid/files-missing", c16Scn{"files", 1100, "files-missing", "guardian", "progress", 700, 4, 0}},
+		{"drain/1100-wounds-guardian", c16Scn{"files", 1100, "files-flip", "guardian", "none", 0, 4, 0}},
+		{"drain/1200-link-wounds-badpath", c16Scn{"links", 1200, "links-retarget", "writer-badpath", "none", 0, 4, 0}},
+		{"rearm/worker-error-root-missing", c16Scn{"files", 40, "root-missing", "writer", "none", 0, 4, 0}},
+		{"rearm/consumer-error-early", c16Scn{"files", 1100, "first-flip", "guardian", "none", 0, 1, 0}},
+		{"writer-fails-after-1024-wounds", c16Scn{Shape: "files", N: 1100, Damage: "files-flip", Consumer: "writer-limit", Cancel: "none", Procs: 4, FailN: 1025}},
+		{"writer-fails-at-last-wound", c16Scn{Shape: "files", N: 1100, Damage: "files-flip", Consumer: "writer-limit", Cancel: "none", Procs: 16, FailN: 1100}},
+		{"writer-limit-never-reached", c16Scn{Shape: "files", N: 1100, Damage: "files-flip", Consumer: "writer-limit", Cancel: "none", Procs: 4, FailN: 1101}},
+		{"writer-limit-never-reached-dirs", c16Scn{Shape: "dirs", N: 1200, Damage: "dirs-missing", Consumer: "writer-limit", Cancel: "none", Procs: 4, FailN: 1201}},
+		{"writer-fails-at-last-dir-wound", c16Scn{Shape: "dirs", N: 1200, Damage: "dirs-missing", Consumer: "writer-limit", Cancel: "none", Procs: 4, FailN: 1200}},
+		{"writer-fails-at-5th-dir-wound", c16Scn{Shape: "dirs", N: 1200, Damage: "dirs-missing", Consumer: "writer-limit", Cancel: "none", Procs: 1, FailN: 5}},
+		{"early-return/parent-asfile", c16Scn{"mixed", 420, "parent-asfile", "writer", "none", 0, 4, 0}},
+		{"zero-files/worker-error-after-loop", c16Scn{"empty", 0, "root-missing", "guardian", "none", 0, 4, 0}},
 	}
 	for _, x := range corpus {
 		if err := emit(x.s, x.name); err != nil {
@@ -785,6 +885,11 @@ func runC16(c *Ctx) error {
 			}
 			if k == 0 {
 				s.Consumer = "guardian"
+			}
+			if k == 1 && ((sh.shape == "files" && damage == "files-flip") || (sh.shape == "dirs" && damage == "dirs-missing")) {
+				s.Consumer = "writer-limit"
+				w := sh.n
+				s.FailN = []int{1, 2, 5, 1024, 1025, w, w + 1}[cr.Intn(7)]
 			}
 			s.Cancel = cancels[cr.Intn(len(cancels))]
 			s.Procs = procs[cr.Intn(len(procs))]
